@@ -157,6 +157,9 @@ def _run_inner(job):
 
 def replay(entry, repo_root):
     r = entry.get('replay') or {}
+    if r.get('kind') == 'thin':
+        f = _thin_job(tuple(r['job']))
+        return f[0]['what'] if f else None
     if r.get('kind') == 'keyed':
         f = _keyed_job(tuple(r['job']))
         return f[0]['what'] if f else None
@@ -264,6 +267,86 @@ def _keyed_job(job):
     return fails
 
 
+def _thin_job(job):
+    """A heap made SMALL while one of its trees stays WIDE: push 2**D + 1 keys and pop once (one binomial tree of 2**D nodes),
+    then remove, through the public remove(), every node except the root's children and, below them, everything but each node's
+    widest child - a root of degree D over far fewer than 2**D items - then drain.  Size, peek, pop and the representation are
+    compared with a list model after every step.  (Shape taken from the report of the round-7 seed for C16.)"""
+    from graphtage.fibonacci import FibonacciHeap, MaxFibonacciHeap
+    kind, D, variant = job
+    sign = 1 if kind == 'min' else -1
+    h = FibonacciHeap() if kind == 'min' else MaxFibonacciHeap()
+    live = []
+    fails = []
+    step = 0
+
+    def fail(k, what):
+        fails.append({'what': f"{kind}-heap, thin tree D={D} variant {variant}, step {step}: {what}", 'class': f'c16-{k}',
+                      'input': {'kind': kind, 'D': D, 'variant': variant}, 'replay': {'kind': 'thin', 'job': list(job)}})
+
+    def check(what):
+        if len(h) != len(live) or bool(h) != bool(live):
+            fail('size', f"after {what}: len(heap)={len(h)}, live items={len(live)}")
+            return False
+        if live and sign * h.peek() != min(sign * k for _, k in live):
+            fail('peek-not-minimum', f"after {what}: peek returned {h.peek()}, smallest live key is {sign * min(sign * k for _, k in live)}")
+            return False
+        msg = _rep_check(h, live)
+        if msg:
+            fail('representation', f"after {what}: {msg}")
+            return False
+        return True
+    try:
+        for i in range(2 ** D + 1):
+            k = sign * (i // 2)         # duplicate keys on purpose
+            live.append([h.push(k), k])
+        step += 1
+        mn = h.min_node
+        item = h.pop()
+        idx = next(i for i, (n, _) in enumerate(live) if n is mn)
+        live.pop(idx)
+        if not check('first pop'):
+            return fails
+        keep = set()
+
+        def visit(node, is_root):
+            keep.add(id(node))
+            kids = list(node.children)
+            if not is_root and kids:
+                drop = max(kids, key=lambda c: c.degree) if variant == 0 else min(kids, key=lambda c: c.degree)
+                kids = [c for c in kids if c is not drop]
+            for c in kids:
+                visit(c, False)
+        for r in [n for n, _ in live if n.parent is None]:
+            visit(r, True)
+        victims = [ent for ent in live if id(ent[0]) not in keep]
+        if variant == 2:
+            victims.reverse()
+        for ent in victims:
+            step += 1
+            live.remove(ent)
+            h.remove(ent[0])
+            if not check(f"remove of key {ent[1]}"):
+                return fails
+        while live:
+            step += 1
+            best = min(sign * k for _, k in live)
+            mn = h.min_node
+            item = h.pop()
+            if sign * item != best:
+                fail('pop-not-minimum', f"pop returned {item}, smallest live key is {sign * best}")
+                return fails
+            idx = next((i for i, (n, k) in enumerate(live) if n is mn), None)
+            if idx is None or live[idx][1] != item:
+                idx = next(i for i, (n, k) in enumerate(live) if k == item)
+            live.pop(idx)
+            if not check('drain pop'):
+                return fails
+    except Exception as ex:
+        fail('exception:' + type(ex).__name__, f"{type(ex).__name__}: {ex}")
+    return fails
+
+
 def bounded(tier, seed, repo_root):
     L = 5 if tier == 'quick' else 6
     alpha = _alphabet([0, 1, 2])
@@ -305,12 +388,14 @@ def bounded(tier, seed, repo_root):
             its = [(a, int(b)) for a, b in its]
         kj.append((kn, its, rnd.randint(1, 4)))
     fails += [f for fs in pmap(_keyed_job, kj, repo_root, chunksize=100, job_timeout=20, on_timeout=_helpers_timeout) for f in fs]
+    tj = [(kind, D, v) for kind in ('min', 'max') for D in range(2, 9 if tier == 'quick' else 11) for v in (0, 1, 2)]
+    fails += [f for fs in pmap(_thin_job, tj, repo_root, chunksize=1, job_timeout=120, on_timeout=_helpers_timeout) for f in fs]
     return [{
         'name': 'C16.lock-step', 'bound': f"all operation sequences over push(0|1|2)/pop/peek/decrease_key/remove up to length {L} "
         f"for the min-heap and (without decrease_key) the max-heap ({exhaustive_n} sequences, exhaustive) + "
         f"{len(jobs) - exhaustive_n} seeded sequences of length 20..200 with duplicate keys; {OPS_TIMEOUT}s per sequence; "
-        f"{len(hj)} smallest/largest/merge jobs; {len(kj)} heaps / smallest / largest with key functions whose keys include 0, 0.0, False, '' and ()",
-        'evaluations': len(jobs) + len(hj) + len(kj), 'distinct_nontrivial': len(jobs), 'exhaustive': True,
+        f"{len(hj)} smallest/largest/merge jobs; {len(kj)} heaps / smallest / largest with key functions whose keys include 0, 0.0, False, '' and (); {len(tj)} thin-tree scenarios (a tree of 2**D nodes, D <= {8 if tier == 'quick' else 10}, thinned through remove() to a wide root over few items, then drained)",
+        'evaluations': len(jobs) + len(hj) + len(kj) + len(tj), 'distinct_nontrivial': len(jobs), 'exhaustive': True,
         'rule': 'operation sequence -> after every operation: reported size == live items, peek/pop return a smallest live '
                 'key (model keyed by node identity), rings closed, parent/child/degree consistent, heap order',
         'failures': fails, 'samples': [{'heap': j[0], 'ops': j[1]} for j in jobs[5000:5003]],
